@@ -182,5 +182,34 @@ func VerifC19Send() {
 		rt.Assert(ds.sent == 0, "writes-do-not-happen-in-the-caller")
 	}
 	rt.Assert(st.queue.Len() == qs, "stream-queue-fills-up-to-its-size")
+	// a stuck peer delays nobody: a healthy stream (room in its queue) registered before or after the stuck one,
+	// under the same tag or another, gets every broadcast and every direct send while the stuck one is full
+	hs := &vC19Stream{ctx: peer.CtxWithPeerId(context.Background(), "p1")}
+	order := rt.Choose(2)
+	tag := []string{"t0", "t1"}[rt.Choose(2)]
+	var healthy *stream
+	if order == 0 {
+		healthy, err = p.addStream(hs, 3*qs+8, tag)
+	} else {
+		// registered before the stuck stream in the tag index: a fresh pool with the healthy stream first
+		p = New().(*streamPool)
+		p.dial = NewExecPool(1, qs)
+		healthy, err = p.addStream(hs, 3*qs+8, tag)
+		rt.Assert(err == nil, "add-stream")
+		ds = &vC19Stream{ctx: peer.CtxWithPeerId(context.Background(), "p0")}
+		st, err = p.addStream(ds, qs, "t0")
+		for i := 0; i < qs; i++ {
+			_ = p.SendById(context.Background(), &vC19Msg{1}, "p0")
+		}
+	}
+	rt.Assert(err == nil && st.queue.Len() == qs, "stuck-stream-is-full")
+	for i := 0; i < qs+1; i++ {
+		_ = p.Broadcast(context.Background(), &vC19Msg{1}, "t0", "t1")
+		rt.Assert(healthy.queue.Len() == 2*i+1, "healthy-stream-gets-every-broadcast-despite-the-stuck-one")
+		_ = p.SendById(context.Background(), &vC19Msg{1}, "p0")
+		rt.Assert(p.SendById(context.Background(), &vC19Msg{1}, "p1") == nil, "direct-send-to-the-healthy-peer-succeeds")
+		rt.Assert(healthy.queue.Len() == 2*i+2, "healthy-peer-gets-its-direct-send-while-another-peer-is-stuck")
+		rt.Assert(st.queue.Len() == qs && hs.sent == 0, "nothing-waits-and-nothing-is-written-in-the-caller")
+	}
 	rt.Reach("send")
 }
